@@ -91,6 +91,7 @@ type Interp struct {
 	symObjs map[string]*Obj
 	locs    map[string]locInfo
 	stack   []*ssa.Function
+	acts    []*activation
 	curPos  token.Pos
 	fresh   int
 	steps   int
@@ -115,6 +116,7 @@ func (ip *Interp) Reset() {
 	ip.Imprec = nil
 	ip.LiveBlock = map[*ssa.BasicBlock]bool{}
 	ip.stack = ip.stack[:0]
+	ip.acts = ip.acts[:0]
 	ip.steps = 0
 }
 
@@ -127,6 +129,29 @@ func (ip *Interp) Imprecise(why string) {
 	}
 	ip.Imprec = append(ip.Imprec, fn+why)
 }
+
+func (ip *Interp) CurFn() *ssa.Function { return ip.curFn() }
+
+// Guards returns the undecided branch conditions (key -> outcome) known to hold at
+// the current point of the innermost activation.
+func (ip *Interp) Guards(st *State) map[string]bool {
+	g := map[string]bool{}
+	if len(ip.acts) == 0 || st == nil {
+		return g
+	}
+	act := ip.acts[len(ip.acts)-1]
+	for k, v := range st.refine {
+		b, ok := v.(*Bool)
+		if !ok || b.K == TriTop {
+			continue
+		}
+		if ev, ok := act.env[k].(*Bool); ok && ev.K == TriTop {
+			g[ValKey(ev)] = b.K == TriT
+		}
+	}
+	return g
+}
+func (ip *Interp) CurPos() token.Pos  { return ip.curPos }
 
 func (ip *Interp) curFn() *ssa.Function {
 	if len(ip.stack) == 0 {
@@ -234,9 +259,14 @@ func (ip *Interp) Call(fn *ssa.Function, args []Val, bind []Val, st *State) (res
 	}
 	ip.stack = append(ip.stack, fn)
 	savedPos := ip.curPos
-	defer func() { ip.stack = ip.stack[:len(ip.stack)-1]; ip.curPos = savedPos }()
-
 	act := &activation{fn: fn, env: map[ssa.Value]Val{}, loads: map[ssa.Value]loadOrigin{}}
+	ip.acts = append(ip.acts, act)
+	defer func() {
+		ip.stack = ip.stack[:len(ip.stack)-1]
+		ip.acts = ip.acts[:len(ip.acts)-1]
+		ip.curPos = savedPos
+	}()
+
 	for i, p := range fn.Params {
 		if i < len(args) {
 			act.env[p] = args[i]
@@ -1249,6 +1279,11 @@ func (ip *Interp) callFunc(st *State, site ssa.CallInstruction, fn *ssa.Function
 	case "log.Fatalf", "log.Fatal", "log.Fatalln", "os.Exit", "log.Panicf", "log.Panic", "log.Panicln":
 		ev.Kind = "fatal"
 		return nil, false
+	case "fmt.Fprintf", "fmt.Fprint", "fmt.Fprintln", "fmt.Printf", "fmt.Println":
+		// writes to an io.Writer outside the module; no effect on module state
+		res := top("ext:" + name)
+		ev.Result = res
+		return res, true
 	case "fmt.Sprintf", "fmt.Sprint", "fmt.Sprintln", "fmt.Errorf", "errors.New",
 		"log.Println", "log.Printf", "log.Print", "strconv.Itoa", "strconv.FormatInt", "strconv.FormatUint":
 		res := top("ext:" + name)
